@@ -1,6 +1,7 @@
 import BM.Proofs.Step
 import BM.Proofs.SkipText
 import BM.Props.C09
+import BM.Proofs.ProvC
 /-
   C08: content of disallowed invisible-content elements is removed.  Proved (event level):
   * while `skipElementContent` is set nothing but the space of AddSpaceWhenStrippingTag is
@@ -103,5 +104,25 @@ example :
                         setOfElementsToSkipContent := [b!"object", b!"title"] }
     visibleTextAux p 0 [] (tokenize b!"a<object>x<b>y</b><object>z</object>w</object>c<i>d</i>") = b!"acd" ∧
     p.sanitizeCore b!"a<object>x<b>y</b><object>z</object>w</object>c<i>d</i>" = b!"acd" := by decide
+
+/-- **C08 (byte level), comments allowed or not**: the same for every policy without AllowUnsafe and
+    without a raw-text element on its allowlist — comments that come through are not text -/
+theorem C08_bytesC (p : Policy) (hp : PlainC p.ensureInit) (hs : p.ensureInit.addSpaces = false)
+    (input : Bytes) (hwn : wellNested (tokenize input) = true)
+    (hnos : ∀ t ∈ tokenize input, isTag t = true → isScriptOrStyle t.data = false) :
+    textOf (tokenize (p.sanitizeCore input)) = visibleTextAux p.ensureInit 0 [] (tokenize input) := by
+  obtain ⟨ws, toks, hrun, ⟨hbytes, hprov⟩, htext⟩ := C08_events p hp.noUnsafe hs input hwn hnos
+  have hseg : ∀ k ∈ toks, SegOKC k := by
+    intro k hk
+    obtain ⟨t, ht, hpr⟩ := hprov k hk
+    exact prov_segOKC hp (tokenize_wf input t ht) hpr
+  have hb : p.sanitizeCore input = renderAll toks := by
+    unfold Policy.sanitizeCore Policy.sanitizeTokens
+    rw [hrun]
+    simp only
+    unfold TokBytes at hbytes
+    rw [hbytes, flatten_map_render]
+  rw [hb, tokenize_renderAllC toks hseg, textOf_coalesce, textOf_map_reread]
+  simpa using htext
 
 end BM.Props
